@@ -512,12 +512,13 @@ theorem C03_roundtrip_values (P : Params) (fuel : Nat) (s : S) (scope : List Nat
 
 /-- a graph as pyiron builds it, seen from its composites: every data input of a child is listed
 once, is part of the pickled object, and each of its upstream outputs is found under its own labels
-among the children of the same composite -/
+among the outputs of the children of the same composite -/
 structure Closed (s : S) (scope : List Nat) (comps : List Comp) : Prop where
   nodup   : (allIns comps).Nodup
   inScope : ∀ i ∈ allIns comps, i ∈ scope
   isIn    : ∀ i ∈ allIns comps, s.kind i = .dataIn
   resId   : ∀ C ∈ comps, ∀ i ∈ C.ins, ∀ o ∈ s.conns i, C.resOut.lookup o = some o
+  own     : ∀ C ∈ comps, ∀ i ∈ C.ins, ∀ o ∈ s.conns i, o ∈ C.kouts
 
 /-- **the order survives** where the restoration reconnects in reverse stored order (`revIter`, the
 repair of KF-C07-1): every input of every composite comes back with exactly the connection list it
@@ -536,7 +537,7 @@ theorem C03_roundtrip_keeps_order (P : Params) (fuel : Nat) (s : S) (scope : Lis
   split
   · rename_i s' heq
     have := restoreAll_order P fuel s hrev (allIns comps) hA (fun i _ => hwf.conn.nodup i) comps
-      (rtClear P s scope) s' (fun _ h => h) hcl.nodup hcl.resId
+      (rtClear P s scope) s' (fun _ h => h) hcl.nodup hcl.resId hcl.own
       (fun i hi => by simp [rtClear, hcl.inScope i hi]) heq
     exact this.1
   · rename_i heq
@@ -695,8 +696,10 @@ theorem C03_activate_witness :
 
 /-! ### concrete round trips -/
 
-/-- the parameters of `exP` with the repaired restoration -/
+/-- the parameters of `exP` with the restoration of the current tree … -/
 def exPr : Params := { exP with cfg := Cfg.repaired }
+/-- … and with that of the snapshot this round started from -/
+def exPp : Params := { exP with cfg := Cfg.pinned }
 
 /-- node 0 = the consumer of `exInit` (inputs 0, 1, 2; outputs 3, 4, 5), nodes 1, 2 = sources with
 outputs 10, 11, all children of one workflow; input 0 was connected to 10 first, to 11 last -/
@@ -706,23 +709,23 @@ def rtS : S :=
 def rtScope : List Nat := [0, 1, 2, 3, 4, 5, 10, 11]
 def rtComps : List Comp :=
   [{ ins := [0, 1, 2], resOut := [(3, 3), (4, 4), (5, 5), (10, 10), (11, 11)], mins := [], resIn := [],
-     couts := [], resMOut := [] }]
+     kouts := [3, 4, 5, 10, 11], couts := [], resMOut := [] }]
 
-/-- **the current tree reverses the priority**: input 0 was connected to 10, then to 11; both hold
-data; the original runs on the value of 11 (most recent), its unpickled copy on the value of 10
-(KF-C07-1 seen from C03: `_restore_connections_from_strings` reconnects newest-first and `connect`
-prepends) -/
+/-- **the snapshot this round started from reverses the priority** (before fix 5575cee): input 0 was
+connected to 10, then to 11; both hold data; the original runs on the value of 11 (most recent), its
+unpickled copy on the value of 10 (KF-C07-1 seen from C03 = KF-C03-1: `_restore_connections_from_strings`
+reconnected newest-first and `connect` prepends) -/
 theorem C03_roundtrip_reverses_witness :
-    let r := roundTrip exP 8 rtS rtScope rtComps
-    exP.cfg = Cfg.pinned ∧ r.2 = none ∧ rtS.conns 0 = [11, 10] ∧ r.1.conns 0 = [10, 11] ∧
+    let r := roundTrip exPp 8 rtS rtScope rtComps
+    exPp.cfg = Cfg.pinned ∧ r.2 = none ∧ rtS.conns 0 = [11, 10] ∧ r.1.conns 0 = [10, 11] ∧
     fetchVal rtS 0 = .d 2 ∧ fetchVal r.1 0 = .d 1 ∧
-    (runNode exP 8 rtS 0 []).1.calls = [(0, [.d 2, .d 100, .d 5])] ∧
-    (runNode exP 8 r.1 0 []).1.calls = [(0, [.d 1, .d 100, .d 5])] := by
+    (runNode exPp 8 rtS 0 []).1.calls = [(0, [.d 2, .d 100, .d 5])] ∧
+    (runNode exPp 8 r.1 0 []).1.calls = [(0, [.d 1, .d 100, .d 5])] := by
   decide
 
 -- with the repaired switches the hypotheses of `C03_roundtrip_keeps_order` / `C03_roundtrip_gate` hold in
 -- `rtS`, the round trip succeeds, and list, fetched value and call are those of the original
-example : Closed rtS rtScope rtComps := ⟨by decide, by decide, by decide, by decide⟩
+example : Closed rtS rtScope rtComps := ⟨by decide, by decide, by decide, by decide, by decide⟩
 example : WF exPr rtS := run_pres (wf_pres exPr) 8 _ _ (Or.inl rfl) (init_wf exPr _ _ _ _ _ _)
 example : Panel rtS 0 := by
   have hins : rtS.ins 0 = [0, 1, 2] := by decide
@@ -738,10 +741,14 @@ example : exPr.cfg.revIter = true ∧ exPr.cfg.pushIn = false ∧ exPr.cfg.pushO
   decide
 example : exPr.copyVal = id := rfl
 example : CopyOk exPr := copyOk_id exPr rfl
--- a round trip that raises: output 11 is not found among the children (a connection across the border)
-example : (roundTrip exP 8 rtS rtScope
-    [{ ins := [0, 1, 2], resOut := [(10, 10)], mins := [], resIn := [], couts := [], resMOut := [] }]).2 =
+-- a connection across the border of the composite (output 11 is not a child's): `loads` raised on the
+-- snapshot; the current tree does not store it, the copy comes back without it
+example : (roundTrip exPp 8 rtS rtScope
+    [{ ins := [0, 1, 2], resOut := [(10, 10)], mins := [], resIn := [], kouts := [10], couts := [], resMOut := [] }]).2 =
     some .serial := by decide
+example : (roundTrip exPr 8 rtS rtScope
+    [{ ins := [0, 1, 2], resOut := [(10, 10)], mins := [], resIn := [], kouts := [10], couts := [],
+       resMOut := [] }]).1.conns 0 = [10] := by decide
 -- round trips are operations of histories: `C03_recency` / `C03_no_bad_store` range over them
 example : ∀ op ∈ exOps ++ [Data.Op.roundTrip rtScope rtComps, .run 0 []], op.noActivate := by decide
 
@@ -760,7 +767,7 @@ theorem C03_second_marker_witness :
     let r := roundTrip exP2 8 rtT rtScope rtComps
     exP2.copyVal .nd ≠ .nd ∧ rtT.val 2 = .nd ∧ (runNode exP2 8 rtT 0 []).2 = .err .readiness ∧
     r.2 = none ∧ r.1.val 2 = .nd2 ∧ (runNode exP2 8 r.1 0 []).2 = .invoked none ∧
-    (runNode exP2 8 r.1 0 []).1.calls = [(0, [.d 1, .d 100, .nd2])] ∧ r.1.val 3 = .nd2 := by
+    (runNode exP2 8 r.1 0 []).1.calls = [(0, [.d 2, .d 100, .nd2])] ∧ r.1.val 3 = .nd2 := by
   decide
 
 /-- the chain 21 → 20 → 0 of `exS` as two nested macros (innermost first); channel 0 was then set
@@ -768,8 +775,8 @@ directly to 9, so it disagrees with its senders (7) -/
 def lkS : S := (Data.step exP 8 exS (.set 0 (.d 9))).1
 def lkScope : List Nat := [0, 1, 2, 3, 4, 5, 20, 21]
 def lkComps : List Comp :=
-  [{ ins := [], resOut := [], mins := [20], resIn := [(0, 0)], couts := [], resMOut := [] },
-   { ins := [], resOut := [], mins := [21], resIn := [(20, 20)], couts := [], resMOut := [] }]
+  [{ ins := [], resOut := [], mins := [20], resIn := [(0, 0)], kouts := [], couts := [], resMOut := [] },
+   { ins := [], resOut := [], mins := [21], resIn := [(20, 20)], kouts := [], couts := [], resMOut := [] }]
 -- plain assignment (current tree for input links): values as they were, links back
 example : (roundTrip exP 8 lkS lkScope lkComps).2 = none ∧
     ((roundTrip exP 8 lkS lkScope lkComps).1.val 0, (roundTrip exP 8 lkS lkScope lkComps).1.val 20,
@@ -777,9 +784,10 @@ example : (roundTrip exP 8 lkS lkScope lkComps).2 = none ∧
     (.d 9, .d 7, some 20, some 0) := by decide
 -- pushed links (the tree before fix 60885c9): the sender's value arrives in the receiver — a value some
 -- channel held before (`C03_roundtrip_no_invention`), not the receiver's own
-example : (roundTrip { exP with cfg := ⟨false, true, true⟩ } 8 lkS lkScope lkComps).1.val 0 = .d 7 := by decide
--- a macro input that lost its receiver: `__getstate__` raises, nothing changes
-example : (roundTrip exP 8 (Data.step exP 8 lkS (.link 21 none)).1 lkScope lkComps).2 = some .serial := by decide
+example : (roundTrip exPp 8 lkS lkScope lkComps).1.val 0 = .d 7 := by decide
+-- a macro input that lost its receiver: `__getstate__` raised on the snapshot (nothing changes); now it is skipped
+example : (roundTrip exPp 8 (Data.step exP 8 lkS (.link 21 none)).1 lkScope lkComps).2 = some .serial := by decide
+example : (roundTrip exP 8 (Data.step exP 8 lkS (.link 21 none)).1 lkScope lkComps).2 = none := by decide
 
 end PwVerif.C03
 
